@@ -164,6 +164,33 @@ func c25WritePath(k *eng.Check) {
 
 	// table(): every secondary writer's map is put into the index set under the writer's name
 	if fn := k.Fn(c25PTW + "table"); fn != nil {
+		// the materialising loop may have been moved into a method of the same receiver that table() calls
+		// (phase split): it is analysed there, and table() must consume that method's verdict and return a table
+		// derived from its result
+		if top := fn; !c25HasSecondaryMapLoop(top, fSec) {
+			for _, ci := range eng.Calls(top, func(q ssa.CallInstruction) bool {
+				h := q.Common().StaticCallee()
+				return h != nil && len(h.Blocks) > 0 && h.Signature.Recv() != nil && top.Signature.Recv() != nil &&
+					types.Identical(h.Signature.Recv().Type(), top.Signature.Recv().Type()) && c25HasSecondaryMapLoop(h, fSec)
+			}, false) {
+				fn = ci.Common().StaticCallee()
+				k.FuncsSeen[fn] = true
+				topExits := eng.ErrBranchSuccessExits(top)
+				k.OnlyAfter("flush-indexes", top, "table() succeeds only after its materialising phase "+eng.Name(fn)+" returned nil", topExits, 1, eng.OkCut(ci))
+				derived := true
+				for in := range topExits.I {
+					ret, isRet := in.(*ssa.Return)
+					if !isRet || len(ret.Results) == 0 {
+						continue
+					}
+					if !eng.MentionsDeep(eng.Unspill(ret, 0), func(v ssa.Value) bool { return eng.ResultOf(v, ci, 0) }) {
+						derived = false
+					}
+				}
+				k.Require("flush-indexes", eng.Name(top)+"#phase-result", "the table returned by table() derives from the materialising phase's result", derived, c.InstrPos(ci.(ssa.Instruction)), "the phase's table is discarded")
+				break
+			}
+		}
 		exits := eng.ErrBranchSuccessExits(fn)
 		mPut := eng.Method(c25IdxSet, "PutIndex")
 		done := eng.NewSet()
@@ -858,4 +885,14 @@ func checkEvictedRowRole(k *eng.Check) {
 	if n < 2 {
 		k.Unknown("evicted-row-is-left-row", eng.Name(fn), "DeleteEntry calls in the NOT NULL validator", fmt.Sprintf("%d found (floor 2)", n))
 	}
+}
+
+// c25HasSecondaryMapLoop: fn ranges over the secondary writers and calls Map on the element.
+func c25HasSecondaryMapLoop(fn *ssa.Function, fSec string) bool {
+	for _, l := range c25Loops(fn, fSec) {
+		if len(c25ElemCalls(fn, l, "Map")) > 0 {
+			return true
+		}
+	}
+	return false
 }
